@@ -35,7 +35,8 @@ FOS = [
     FO("as16","u16",'#[codec(encoded_as = "<u16 as HasCompact>::Type")]',"Shape::Compact(16)"),
     FO("aspt","Pt",'#[codec(encoded_as = "PtRev")]',"ptrev_shape()",frm="ptrev_from({v})",to="ptrev_to(&{f})"),
     FO("ca","CA","#[codec(compact)]","Shape::Compact(32)",frm="ca_from({v})",to="ca_to(&{f})"),
-    FO("cgen","T","#[codec(compact)]","Shape::Compact(16)",generic=True,mel=False),   # T = u16 only
+    FO("cgen","T","#[codec(compact)]","Shape::Compact(16)",generic=True,mel=False),
+    FO("ze","ZE"),   # zero-sized in memory, one index byte on the wire   # T = u16 only
 ]
 F = {f.key: f for f in FOS}
 
@@ -252,7 +253,7 @@ for keys in (["u32"],["vec"],["opt"],["u8","ph"],["ph","u32"],["gen"],["gen","ph
         defs.append(struct(nm("T"),sk,keys,transparent=True,tag="transparent"))
 # repr(transparent) whose single non-ZST field carries an attribute: the in-place decode path must
 # not be taken (or must honour the attribute); decoded through Box / arrays by the composites
-for keys in (["cu32"],["cu64","ph"],["ph","cu128"],["sk64"],["sk64","ph"],["skvec"],["as16"],["aspt"],["ca"],["cgen"],["ph","as16"]):
+for keys in (["cu32"],["cu64","ph"],["ph","cu128"],["sk64"],["sk64","ph"],["skvec"],["as16"],["aspt"],["ca"],["cgen"],["ph","as16"],["u32","ze"],["ze","vec"],["ze"],["ze","ze"],["ph","ze","u8"]):
     for sk in ("tuple","named"):
         defs.append(struct(nm("T"),sk,keys,transparent=True,tag="transparent"))
 # CompactAs derive on single-non-skipped-field structs
@@ -294,6 +295,12 @@ for pat in itertools.product(SR3,repeat=3):
     for shapes in ([("unit",[])]*3, [("tuple",["u8"]),("unit",[]),("named",["sk64","u32"])]):
         d=mk_enum([(sk,keys,src) for (sk,keys),src in zip(shapes,pat)],"enum3")
         if d: defs.append(d)
+# variants with the same field types that differ only in how a field is encoded
+for (a,b) in ((["u32"],["cu32"]),(["cu32"],["u32"]),(["u64"],["cu64"]),(["cu128"],["u128"]),(["u16"],["as16"]),(["as16"],["u16"])):
+    for sk in ("tuple","named"):
+        d=mk_enum([(sk,a,("implicit",)),(sk,b,("implicit",))],"enumpair"); defs.append(d)
+        d=mk_enum([("unit",[],("implicit",)),(sk,a,("implicit",)),(sk,b,("attr",9)),(sk,a,("implicit",))],"enumpair"); defs.append(d)
+d=mk_enum([("named",["u8","u32"],("implicit",)),("named",["u8","cu32"],("implicit",)),("named",["sk64","u32"],("implicit",))],"enumpair"); defs.append(d)
 # a 256-variant enum (the maximum) with one skipped variant in the middle, and a 5-variant mixed one
 big=[("unit",[],("implicit",)) for _ in range(128)]+[("unit",[],("skip",))]+[("unit",[],("implicit",)) for _ in range(128)]
 d=mk_enum(big,"core"); defs.append(d)
@@ -361,7 +368,7 @@ def main():
 use parity_scale_codec::{CompactAs, Decode, DecodeWithMemTracking, Encode, HasCompact, MaxEncodedLen};
 use refmodel::{Field, Shape, Value, Variant};
 use std::marker::PhantomData;
-use subjects::{derived::{add2, ca_from, ca_to, list, ptrev_from, ptrev_shape, ptrev_to, variant, CompactAsSubject, CompactOf, Pt, PtRev, CA}, vt::VT, Subject};
+use subjects::{derived::{add2, ca_from, ca_to, list, ptrev_from, ptrev_shape, ptrev_to, variant, CompactAsSubject, CompactOf, Pt, PtRev, CA, ZE}, vt::VT, Subject};
 
 '''
     cargo='''[package]
